@@ -147,6 +147,11 @@ pub fn run_case(spec: &MbSpec, case: &ScCase, st: &mut Stats) -> Result<(), Viol
             break;
         };
         let actor = match &op {
+            Op::Multi(v) => {
+                trace.lines.push(format!("contention script: {:?}", v));
+                ctx = "REGLINE".into();
+                None
+            }
             Op::Connect => {
                 trace.lines.push("new connection".to_string());
                 ctx = "CONNECT".into();
